@@ -480,4 +480,6 @@ def run(tier):
     _l.limb_split_consistent(chk, ['src/ec/'])
     from .. import siblings as _sib
     _sib.check(chk, ['src/ec/'], floor=8)
+    from .. import lints as _lints_ir
+    _lints_ir.ignored_result_regression(chk, ['src/ec/', 'src/int/'])
     return chk.finish()
